@@ -1196,6 +1196,7 @@ func (m SmallMap) Inspect() string {
 	}
 	out := strings.Builder{}
 	out.WriteString("{")
+	check := inspectCheckStart
 	for i := range m.len {
 		if i > 0 {
 			out.WriteString(",")
@@ -1203,6 +1204,7 @@ func (m SmallMap) Inspect() string {
 		out.WriteString(m.smallKV[i].Key.Inspect())
 		out.WriteString(":")
 		out.WriteString(m.smallKV[i].Value.Inspect())
+		check = inspectSizeCheck(&out, check) // small maps nest too: m = {"a": m, "b": m} a few dozen times is huge.
 	}
 	out.WriteString("}")
 	return out.String()
